@@ -34,8 +34,11 @@
 (define-fun tv ((A (Array Int Bool)) (l Int)) Bool (= (select A (div l 2)) (= (mod l 2) 0)))
 ; clause of DIMACS integers satisfied
 ;@sig csat : row int asg -> bool
-(define-fun csat ((R (Array Int Int)) (o Int) (n Int) (A (Array Int Bool))) Bool
-  (exists ((j Int)) (! (and (<= o j) (< j (+ o n)) (tvi A (select R j))) :pattern ((select R j)))))
+(declare-fun csat ((Array Int Int) Int Int (Array Int Bool)) Bool)
+; kept uninterpreted (defined by an axiom) so that equal arguments give equal truth values by congruence
+(assert (forall ((R (Array Int Int)) (o Int) (n Int) (A (Array Int Bool)))
+  (! (= (csat R o n A) (exists ((j Int)) (! (and (<= o j) (< j (+ o n)) (tvi A (select R j))) :pattern ((select R j)))))
+     :pattern ((csat R o n A)))))
 
 ; ---------------------------------------------------------------- pbSet semantics (cutting planes)
 ; weights row W (index = variable), assignment A: sum of |W[v]| over v < n whose literal is true
